@@ -80,18 +80,19 @@ func spoofValue(rng *rand.Rand, name string) string {
 }
 
 type reqCase struct {
-	id        int
-	proto     string
-	host      string // SNI and Host (no port)
-	hostHdr   string // Host header as sent (may carry a port)
-	method    string
-	path      string
-	localIP   string
-	header    http.Header         // raw keys
-	spoofed   map[string][]string // canonical judged name -> spoofed values
-	others    []string
-	connTrick bool
-	repeated  bool
+	id         int
+	proto      string
+	host       string // SNI and Host (no port)
+	hostHdr    string // Host header as sent (may carry a port)
+	method     string
+	path       string
+	localIP    string
+	header     http.Header         // raw keys
+	spoofed    map[string][]string // canonical judged name -> spoofed values
+	emptyFirst bool                // some repeated header starts with an empty line
+	others     []string
+	connTrick  bool
+	repeated   bool
 }
 
 func genCase(rng *rand.Rand, id int, proto string, hosts []string) reqCase {
@@ -119,8 +120,20 @@ func genCase(rng *rand.Rand, id int, proto string, hosts []string) reqCase {
 			nvals = 2 + rng.Intn(2)
 			c.repeated = true
 		}
+		// a repeated header whose FIRST line is empty (or blank): code that looks at "the" value of a
+		// header sees nothing there, while the later lines still reach whoever reads all of them
+		emptyFirst := nvals > 1 && rng.Intn(3) == 0
+		fixedKey := oddCase(rng, name, proto)
 		for v := 0; v < nvals; v++ {
 			key := oddCase(rng, name, proto)
+			if emptyFirst {
+				key = fixedKey // one spelling, so that the order of the lines is the order of the values
+			}
+			if emptyFirst && v == 0 {
+				c.header[key] = append(c.header[key], []string{"", " "}[rng.Intn(2)])
+				c.emptyFirst = true
+				continue
+			}
 			val := spoofValue(rng, name)
 			c.header[key] = append(c.header[key], val)
 			c.spoofed[canon] = append(c.spoofed[canon], val)
@@ -184,7 +197,7 @@ func doRequest(lab *gwlab.Lab, c reqCase) result {
 func main() {
 	r := ev.Start("C35", "exploration")
 	r.SetMaxSamples(6)
-	r.SetRule("requests over {h1,h2,h3} x gateway port {443, other} from a random loopback source address 127.0.x.y, Host with/without an explicit port, methods GET/POST/PUT/DELETE, carrying a seeded subset of spoofed {X-Forwarded-For, X-Forwarded-Proto, X-Forwarded-Host, True-Client-IP, X-Real-IP} (single / repeated lines / comma lists / odd header-name casing on h1), other X-Forwarded-* / Forwarded headers, and on h1 a Connection header naming the forwarding headers; a case is distinct by (protocol, port class, set of spoofed judged headers, repeated, explicit Host port, Connection trick)")
+	r.SetRule("requests over {h1,h2,h3} x gateway port {443, other} from a random loopback source address 127.0.x.y, Host with/without an explicit port, methods GET/POST/PUT/DELETE, carrying a seeded subset of spoofed {X-Forwarded-For, X-Forwarded-Proto, X-Forwarded-Host, True-Client-IP, X-Real-IP} (single / repeated lines, also with an empty or blank first line / comma lists / odd header-name casing on h1), other X-Forwarded-* / Forwarded headers, and on h1 a Connection header naming the forwarding headers; a case is distinct by (protocol, port class, set of spoofed judged headers, repeated, explicit Host port, Connection trick)")
 	r.Assume("the connecting peer is identified by its loopback source address; spoofed values never equal the values the gateway must assert")
 	r.Assume("X-Forwarded-* names other than For/Proto/Host and the RFC 7239 Forwarded header are counted, not judged (the statement names three)")
 	r.Assume("Host and SNI are lower-case and equal (HTTP/1.1 requests are routed by SNI in this gateway)")
